@@ -34,6 +34,8 @@ func init() {
 
 func runC15(c *eng.Ctx) {
 	p := c.P
+	everyScanHasItsOwnIterator(c)
+	onlyCommitAddsAKey(c)
 
 	// ---- 1. add path ------------------------------------------------------------------------------------------------------
 	c.Rule("GUARD", sbT+".Add", func() {
